@@ -184,6 +184,44 @@ def part_swappers(chk, drv):
         chk.count('swapper configurations')
 
 
+def part_swapper_plot_rank(chk):
+    """a process that is only there for plotting builds its LayoutSwapper over empty grids on its own communicator and issues the same
+    transposes as the computing processes: it must take part in nothing and return at once, the others must complete"""
+    from pygyro.model.layout import LayoutSwapper
+    rng = chk.rng
+    names = ['v_parallel_2d', 'mode_solve', 'v_parallel_1d', 'poloidal']
+    for it in range(chk.n(4, 20)):
+        p0, p1 = rng.choice([(2, 1), (1, 2), (2, 2)])
+        n = p0 * p1
+        draw = rng.randrange(n + 1)
+        ext = [rng.randint(max(p0, p1), 5) for _ in range(3)]
+        eta = lu.eta_grids(ext)
+        walk = [rng.choice(names) for _ in range(4)]
+
+        def body():
+            world = MPI.COMM_WORLD
+            plot = world.Get_rank() == draw
+            comm = world.Split(1 if plot else 0, world.Get_rank())
+            sw = LayoutSwapper(comm, c03.DRIVER_GROUPS, [[p0, p1], p0, p1] if not plot else [[1, 1], 1, 1],
+                               eta if not plot else [[], [], []], names[0])
+            B = int(sw.bufferSize)
+            cur = names[0]
+            for dst in walk:
+                a, b = np.zeros(B), np.zeros(B)
+                sw.transpose(a, b, cur, dst)
+                cur = dst
+            return B
+        case = {'nprocs': [p0, p1], 'ext': ext, 'drawRank': draw, 'walk': walk}
+        ref = run_policies(chk, n + 1, body, case, 'swapper with a plot-only process', policies=('reverse', 'random'))
+        if ref is None:
+            continue
+        if ref.values()[draw] != 0:
+            chk.fail('C06:plot-rank-buffer', 'the swapper of the plot-only process (empty grids) advertises a non-empty buffer', case, 0, ref.values()[draw])
+        chk.case(('swplot', p0, p1, tuple(ext), draw, tuple(walk)), nontrivial=True)
+        chk.traces_validated += n + 1
+        chk.count('swapper configurations with a plot-only process')
+
+
 def part_grid_layout_changes(chk):
     """Grid.setLayout / save / restore on real Grid objects (all dtypes, with and without save memory) over a handler and over the
     driver's swapper: the buffers Grid hands to the collectives must agree in count and datatype on all members"""
@@ -210,6 +248,8 @@ def part_grid_layout_changes(chk):
                 mgr = getLayoutHandler(comm, L4, [p0, p1], eta)
             g = Grid(eta, [None] * len(ext), mgr, names[0], comm, dtype=dtype, allocateSaveMemory=save)
             g._f[:] = 1.0
+            # a block for a figure from a grid of this dtype (complex grids send their real part)
+            g.getBlockFromDict({0: 0}, comm, 0)
             saved = False
             for op, tgt in zip(ops, targets):
                 if op == 'set':
@@ -553,6 +593,7 @@ def run(chk):
         drv.close()
     part_grid_reductions(chk)
     part_grid_layout_changes(chk)
+    part_swapper_plot_rank(chk)
     part_setup_restart(chk)
     part_driver(chk)
     chk.assumptions = ['real MPI implements blocking collectives matched per communicator in program order (the abstract machine of Model/Collectives.lean); '
